@@ -157,3 +157,85 @@ pub fn gen_schedule(d: &mut crate::gen::Dna, file_len: usize) -> Schedule {
 		_ => Schedule::Split(d.below(file_len.max(1))),
 	}
 }
+
+/// A replay that is too large to materialise: `head` (file header, payload table, Game Start, frames),
+/// then `count` identical filler events (one declared unknown code with a 65 535-byte payload), then `tail`
+/// (Game End, metadata, closing brace). Implements `Read + Seek` by computing which region a position is in.
+pub struct VirtualReplay {
+	pub head: Vec<u8>,
+	pub code: u8,
+	pub count: u64,
+	pub tail: Vec<u8>,
+	pub pos: u64,
+	pub reads: u64,
+}
+
+impl VirtualReplay {
+	pub const FILLER: u64 = 65536; // command byte + 65 535 payload bytes
+	pub fn len(&self) -> u64 {
+		self.head.len() as u64 + self.count * Self::FILLER + self.tail.len() as u64
+	}
+	/// the model's replay with `count` filler events inserted before its Game End (raw length adjusted)
+	pub fn new(m: &crate::model::ModelGame, count: u64) -> Self {
+		use crate::spec;
+		let mut raw = m.raw();
+		let code = (0x40u8..=0xF0).find(|c| !spec::KNOWN_CODES.contains(c) && !raw.table.iter().any(|(k, _)| k == c)).unwrap();
+		raw.table.push((code, 65535));
+		let at = raw.events.iter().position(|e| e.code == spec::EV_GAME_END).unwrap_or(raw.events.len());
+		let body = raw.raw_body().len() as u64 + count * Self::FILLER;
+		assert!(body <= u32::MAX as u64, "raw element must fit the u32 length field");
+		raw.raw_len = Some(body as u32);
+		let bytes = raw.serialize();
+		let split = raw.event_offsets()[at];
+		VirtualReplay { head: bytes[..split].to_vec(), code, count, tail: bytes[split..].to_vec(), pos: 0, reads: 0 }
+	}
+}
+
+impl Read for VirtualReplay {
+	fn read(&mut self, buf: &mut [u8]) -> io::Result<usize> {
+		self.reads += 1;
+		let h = self.head.len() as u64;
+		let mid = self.count * Self::FILLER;
+		let mut done = 0usize;
+		while done < buf.len() && self.pos < self.len() {
+			let want = buf.len() - done;
+			if self.pos < h {
+				let n = want.min((h - self.pos) as usize);
+				buf[done..done + n].copy_from_slice(&self.head[self.pos as usize..self.pos as usize + n]);
+				done += n;
+				self.pos += n as u64;
+			} else if self.pos < h + mid {
+				let off = (self.pos - h) % Self::FILLER;
+				let n = want.min((Self::FILLER - off) as usize);
+				buf[done..done + n].fill(0xA7);
+				if off == 0 {
+					buf[done] = self.code;
+				}
+				done += n;
+				self.pos += n as u64;
+			} else {
+				let t = (self.pos - h - mid) as usize;
+				let n = want.min(self.tail.len() - t);
+				buf[done..done + n].copy_from_slice(&self.tail[t..t + n]);
+				done += n;
+				self.pos += n as u64;
+			}
+		}
+		Ok(done)
+	}
+}
+
+impl Seek for VirtualReplay {
+	fn seek(&mut self, to: SeekFrom) -> io::Result<u64> {
+		let new = match to {
+			SeekFrom::Start(p) => p as i128,
+			SeekFrom::Current(d) => self.pos as i128 + d as i128,
+			SeekFrom::End(d) => self.len() as i128 + d as i128,
+		};
+		if new < 0 {
+			return Err(io::Error::new(io::ErrorKind::InvalidInput, "seek before start"));
+		}
+		self.pos = new as u64;
+		Ok(self.pos)
+	}
+}
